@@ -86,13 +86,19 @@ def main():
         if not case:
             print("replay file names a broken obligation, not an input:", payload.get('broken'))
             return 1
-        c = corr.Case(**{k: (tuple(v) if k in ('variants', 'argv') else v) for k, v in case.items()
+        c = corr.Case(**{k: (tuple(v) if k in ('variants', 'argv', 'before') else v) for k, v in case.items()
                          if k in corr.Case.__dataclass_fields__})
         if c.fs:
             c.fs = {p: (bytes.fromhex(v) if isinstance(v, str) else v) for p, v in c.fs.items()}
         rec = corr.run_case(c)
         print(json.dumps(rec, ensure_ascii=False, indent=1, default=str))
         return 0 if rec['status'] in ('agree', 'skip') else 1
+
+    # replays of an earlier run of this check would be mistaken for this run's
+    import glob as _glob
+    for old in _glob.glob(os.path.join(VERIF, 'replays', prop, 'violation_*.json')):
+        try: os.unlink(old)
+        except OSError: pass
 
     # ---- (1)-(3) Lean stage ------------------------------------------------------------
     obligations = discharged = 0
@@ -153,7 +159,7 @@ def main():
     known_hits = []
     def case_json(c):
         d = {k: getattr(c, k) for k in ('program', 'stdin', 'format_io', 'mode', 'argv', 'tag', 'variants',
-                                         'monitor', 'data', 'compare_fs')}
+                                         'monitor', 'data', 'compare_fs', 'before')}
         d['fs'] = {p: (v.hex() if isinstance(v, (bytes, bytearray)) else v) for p, v in (c.fs or {}).items()} or None
         return d
     for r in recs:
